@@ -159,7 +159,7 @@ _POS = __import__("re").compile(r"\d+,\d+,\d+")
 def projection(rec, K, model):
     import engine_props as ep
     s = ep.projection(rec, "C05", K=K, model=model)
-    if _lazy_rematch(K, rec):
+    if False and _lazy_rematch(K, rec):      # the lazy-rematch defect is repaired (/repo 1d941ee): positions are compared in full again
         # the shared driver computes lazy positions as absolute ones; positions of this class are judged by the oracle
         # (known finding), identity / chain structure / events are still compared
         res, cur, evs = (s.split("|") + ["", ""])[:3]
